@@ -42,7 +42,10 @@ ASSUMPTIONS = [
     "intervals overlap, or a box without outputs (inputs) sits strictly inside "
     "the input (output) span of its neighbour",
     "in the ambiguous exchange (effect directly above a state at the same "
-    "offset) either placement is accepted",
+    "offset) the `left` flag decides the placement as documented (default: "
+    "the upper box counts as right of the lower one); the model follows that "
+    "placement, so a move is expected to be refused exactly when the path "
+    "taken under the requested preference is blocked",
     "denotation = matrices under seeded generic interpretations (dims 2/3 per "
     "atomic type name, one generic complex array per box)"]
 
@@ -62,10 +65,16 @@ def moved_order(n, i, j):
     return order
 
 
-def model_path(layers, arity, i, j):
+def model_path(layers, arity, i, j, left=None):
     """
-    Set of layer tuples the model can reach by moving position i to j with
-    adjacent exchanges; (states, blocked_somewhere, blocked_everywhere).
+    Layer tuples the model can reach by moving position i to j with adjacent
+    exchanges: (states, blocked_somewhere, blocked_everywhere).
+
+    `left` is the documented preference for the one ambiguous exchange (a box
+    without outputs directly above a box without inputs at the same offset):
+    by default box0 counts as being to the RIGHT of box1 (the lower box keeps
+    its offset, tag "left" of the model), with left=True as being to its LEFT
+    (tag "right").  With left=None both placements are followed.
     """
     states = {layers}
     step = 1 if j > i else -1
@@ -77,6 +86,9 @@ def model_path(layers, arity, i, j):
             options = im.exchange(state, arity, k)
             if not options:
                 blocked_some = True
+            if len(options) == 2 and left is not None:
+                wanted = "right" if left else "left"
+                options = [o for o in options if o[0] == wanted]
             for _, new in options:
                 nxt.add(new)
         if not nxt:
@@ -101,7 +113,7 @@ def denotes_same(ctx, a, b, seeds, dims):
 def request(ctx, d, layers, arity, i, j, left, seeds, dims, InterchangerError):
     """ One interchange request, all monitors.  Returns the result or None. """
     n = len(d)
-    states, blocked_some, blocked_all = model_path(layers, arity, i, j)
+    states, blocked_some, blocked_all = model_path(layers, arity, i, j, left)
     try:
         result = d.interchange(i, j, left=left)
     except InterchangerError:
